@@ -70,7 +70,7 @@ FR_SP = {'ge': '>=', 'lt': '<'}
 def fr_clauses(thorough=True):
     out = [('T',), ('F',)]
     for a in (FR_ATOMS if thorough else FR_ATOMS[:3]):
-        out += [('vc', a), ('not', a), ('or', a, 'T'), ('or', a, 'F'), ('and', a, 'T'), ('eqf', a)]
+        out += [('vc', a), ('not', a), ('or', a, 'T'), ('or', a, 'F'), ('and', a, 'T'), ('eqf', a), ('tern', a), ('chain', a), ('paren', a)]
     return out
 
 
@@ -81,14 +81,15 @@ def fr_text(c):
         return 'false'
     vc = "meson.version().version_compare('%s%s')" % (FR_SP[c[1][0]], c[1][1])
     return {'vc': vc, 'not': 'not ' + vc, 'or': vc + ' or ' + ('true' if c[-1] == 'T' else 'false'),
-            'and': vc + ' and true', 'eqf': vc + ' == false'}[c[0]]
+            'and': vc + ' and true', 'eqf': vc + ' == false', 'tern': '(' + vc + ' ? false : true)',
+            'chain': vc + ".to_string().startswith('f')", 'paren': '((' + vc + ') and (true))'}[c[0]]
 
 
 def fr_eval(c, v):
     if c[0] in 'TF':
         return c[0] == 'T'
     a = REF_HOLDS[c[1][0]](ref_cmp(v, c[1][1]))
-    return {'vc': a, 'not': not a, 'or': a or c[-1] == 'T', 'and': a, 'eqf': not a}[c[0]]
+    return {'vc': a, 'not': not a, 'or': a or c[-1] == 'T', 'and': a, 'eqf': not a, 'tern': not a, 'chain': not a, 'paren': a}[c[0]]
 
 
 def fr_block(chain, has_else, v):
@@ -137,6 +138,46 @@ def fr_run(job):
         shutil.rmtree(root, ignore_errors=True)
 
 
+# the range narrowed for a block must be gone once the block is left - also when it is left through continue / break / subdir_done():
+# a statement after the loop (after the subdir() call) runs at every version of the declared range
+FR_EXITS = ['continue', 'break', 'subdir_done', 'fallthrough']
+
+
+def fr_exit_jobs(thorough):
+    cl = [c for c in fr_clauses(thorough) if c[0] in ('vc', 'and', 'paren')]
+    decls = ['>=0.50', '>=1.5']
+    return [('exit', c, ex, d) for c in cl for ex in FR_EXITS for d in decls]
+
+
+def fr_exit_program(c, ex, decl):
+    head = "project('p', meson_version: '%s')\n" % decl
+    tail = "message('AFTER')\nx = 'a'.splitlines()\n"
+    if ex == 'subdir_done':
+        return {'meson.build': head + "subdir('d')\n" + tail,
+                'd/meson.build': "if %s\n  message('TAKEN')\n  subdir_done()\nendif\nmessage('NOT-TAKEN')\n" % fr_text(c)}
+    body = {'continue': '    continue\n', 'break': '    break\n', 'fallthrough': "    y = 1\n"}[ex]
+    return {'meson.build': head + "foreach i : [1, 2]\n  if %s\n    message('TAKEN')\n%s  endif\n  message('NOT-TAKEN')\nendforeach\n" % (fr_text(c), body) + tail}
+
+
+def fr_exit_run(job):
+    import os, shutil, tempfile
+    from verif import mesonproc as mp
+    from verif.core import scratch_root
+    _, c, ex, decl = job
+    root = tempfile.mkdtemp(prefix='c19fx.', dir=scratch_root())
+    try:
+        files = fr_exit_program(c, ex, decl)
+        for rel, text in files.items():
+            os.makedirs(os.path.dirname(os.path.join(root, rel)), exist_ok=True)
+            with open(os.path.join(root, rel), 'w') as f:
+                f.write(text)
+        r = mp.run_meson(['setup', '--backend=none', 'b'], root, timeout=300)
+        out = r.out + r.err
+        return job, r.rc, 'Message: TAKEN' in out, 'Message: AFTER' in out, "uses feature introduced in '1.2.0'" in out, files, out[-500:]
+    finally:
+        shutil.rmtree(root, ignore_errors=True)
+
+
 def fr_form(chain, blk):
     """narrow class of a lost warning: the shape of the condition whose block ran ('else' for the else block), and whether an
     earlier clause of the chain contained a version condition"""
@@ -176,6 +217,27 @@ def part_featurerange(ck):
                 ck.violation('C19:featurerange:lost-warning:' + fr_form(chain, got_blk),
                              'block %d of %r runs at version %s (inside the declared range %r) which is older than %s, but no FeatureNew warning was printed'
                              % (got_blk, text, witness[0], decl, FR_FEATURE_SINCE), {'program': text, 'witness_version': witness[0]})
+    xn = xt = xw = xlost = 0
+    for job, rc, taken, after, warned, files, tail in pmap(fr_exit_run, fr_exit_jobs(ck.thorough)):
+        _, c, ex, decl = job
+        xn += 1
+        if rc != 0 or not after:
+            ck.violation('C19:featurerange:exit:setup-failed', 'meson setup failed / did not reach the end on %r: %s' % (files, tail[-300:]), {'files': files})
+            continue
+        if taken != fr_eval(c, here):
+            ck.violation('C19:featurerange:wrong-block', 'at %s the guarded block should%s run: %r' % (here, '' if fr_eval(c, here) else ' not', files), {'files': files})
+            continue
+        xt += taken
+        need = ref_cmp(decl.lstrip('>='), FR_FEATURE_SINCE) < 0      # the statement after runs at every version of the declared range
+        xw += need
+        if need and not warned:
+            xlost += 1
+            ck.violation('C19:featurerange:lost-warning:after-block-left-by-%s' % ex,
+                         'the statement after the guarded block (left by %s) runs at version %s of the declared range %r, older than %s, but no FeatureNew warning was printed: %r'
+                         % (ex, decl.lstrip('>='), decl, FR_FEATURE_SINCE, files), {'files': files})
+    ck.part('featurerange_exits', programs=xn, guarded_block_taken=xt, warning_required=xw, lost=xlost, exits=len(FR_EXITS))
+    ck.require(xt >= 8 and xw >= 8, 'featurerange exits family is vacuous')
+    n += xn
     ck.part('featurerange', programs=n, warning_required=expected_warn, warned=warned_n, lost=lost, clause_forms=len(fr_clauses(ck.thorough)),
             block_positions=len(blocks_seen))
     ck.require(expected_warn > 50 and warned_n < n and len(blocks_seen) >= 6, 'featurerange family is vacuous')
